@@ -1145,3 +1145,34 @@ Proof.
   unfold classify. destruct (existsb (N.eqb sid) (open_ids s)); [discriminate|].
   destruct (sid <=? highest s) eqn:E; [discriminate|]. apply N.leb_gt in E. lia.
 Qed.
+
+(* ------------------------------------------------------------------ *)
+(** * Graceful shutdown never cuts an upload in flight *)
+
+Definition up_inv (s : upstream) : Prop := eos s = true -> terminated s = true.
+
+Lemma upstep_inv s e : up_inv s -> up_inv (fst (upstep true s e)).
+Proof.
+  unfold up_inv. intros H. destruct e as [n es| |]; cbn [upstep].
+  - destruct (eos s) eqn:E; cbn [fst terminated eos].
+    + intros _. apply H. reflexivity.
+    + cbn [orb]. intros Hes. rewrite Hes. apply Bool.orb_true_r.
+  - cbn [fst terminated eos]. exact H.
+  - cbn [negb orb]. destruct ((queued s =? 0) && terminated s) eqn:C; cbn [fst terminated eos]; [|exact H].
+    intros _. apply andb_prop in C. apply C.
+Qed.
+
+Lemma uprun_inv evs : forall s, up_inv s -> up_inv (fold_left (fun st e => fst (upstep true st e)) evs s).
+Proof. induction evs as [|e r IH]; intros s H; [exact H|]. cbn [fold_left]. apply IH. apply upstep_inv; exact H. Qed.
+
+(** DATA of a request that has not ended is never answered STREAM_CLOSED, whatever happened before *)
+Lemma upload_not_cut_l evs n es :
+  let s := fold_left (fun st e => fst (upstep true st e)) evs (mkup false 0 false) in
+  terminated s = false -> snd (upstep true s (UData n es)) = UOk.
+Proof.
+  cbv zeta. intros Ht.
+  pose proof (uprun_inv evs (mkup false 0 false)) as H.
+  assert (I0 : up_inv (mkup false 0 false)) by (unfold up_inv; cbn; discriminate).
+  specialize (H I0). unfold up_inv in H.
+  cbn [upstep]. destruct (eos _) eqn:E; [rewrite (H eq_refl) in Ht; discriminate|reflexivity].
+Qed.
